@@ -5,8 +5,8 @@ checks: the patch applies to a clean checkout of /repo's HEAD; the crate builds 
 with it; the demonstration fails with it and passes without it."""
 import json, os, shutil, subprocess, sys
 prop, sid = sys.argv[1], sys.argv[2]
-wt = "/tmp/mut/%s" % prop
-outd = "/tmp/mut/out_%s" % prop
+wt = "/tmp/mut/%s" % (os.environ.get("WT") or prop)
+outd = "/tmp/mut/out_%s" % (os.environ.get("WT") or prop)
 dst = "/verif/seeded/%s" % sid
 def sh(cmd, cwd=wt, timeout=1800):
     p = subprocess.run(cmd, shell=True, cwd=cwd, capture_output=True, text=True, timeout=timeout)
